@@ -373,6 +373,30 @@ func jcsReplay(args []string) {
 	})
 
 	col.sum.Extra["spellings"] = spellings
+	// number literals that are long: more digits than a double has, close to the midpoint between two doubles, longer
+	// than any shortest form - a literal denotes the double nearest to it, rounded once (the reference: strconv)
+	for _, lit := range []string{"1.00000000000000011102230246251565404236316680908203126", "9007199254740993.0000001", "9007199254740992.9999999",
+		"1000000000000000000000000", "1.0000000000000000000000e5", "0.000000000000000000000000001", "0.1000000000000000055511151231257827021181583404541015625",
+		"5e-324", "2.2250738585072011e-308", "-0.00000000000000000000000000000000000000000000000000001e53", "123456789012345678901234567890", "4.35", "0.000001", "1e21",
+		"1.7976931348623157e308", "0.30000000000000004440892098500626", "100000000000000000000.00000000000000000000000001"} {
+		in := `{"n":[` + lit + `],"` + "\ufffd�" + `":"` + "� \ufffd \u00e9\u00FF\u0080 é" + `"}`
+		want, rerr := refJCSFromJSON([]byte(in))
+
+		if rerr != nil {
+			fatalf("reference canonicalization of %s: %v", in, rerr)
+		}
+
+		col.nCases++
+		col.kind("long-literal:" + lit)
+		jcsDisturb(len(lit))
+
+		out, err := canonicalizer.MarshalCanonical([]byte(in))
+		if err != nil || !bytes.Equal(out, want) {
+			col.report(mismatch{Kind: "canonical-form", Key: "canonical-form:long-literal:" + lit, Case: in, Detail: fmt.Sprint(err), Expected: string(want), Actual: string(out),
+				Replay: map[string]interface{}{"cmd": append([]string{"jcs-replay"}, args...), "stdin": ""}})
+		}
+	}
+
 	col.finish()
 }
 
